@@ -31,6 +31,28 @@ if TYPE_CHECKING:
 _T = TypeVar("_T", bound=date)
 
 
+def _is_after(start: date, end: date) -> bool:
+    """
+    Whether start denotes a later moment than end.
+
+    Datetimes sharing the same tzinfo are compared on their wall clocks
+    by the standard library, which is wrong around a DST transition.
+    """
+    if (
+        isinstance(start, datetime)
+        and isinstance(end, datetime)
+        and start.tzinfo is not None
+        and start.tzinfo is end.tzinfo
+    ):
+        offsets = cast(timedelta, start.utcoffset()) - cast(
+            timedelta, end.utcoffset()
+        )
+
+        return datetime.__sub__(start, end) - offsets > timedelta()
+
+    return start > end
+
+
 class Interval(Duration, Generic[_T]):
     """
     An interval of time between two datetimes.
@@ -59,7 +81,7 @@ class Interval(Duration, Generic[_T]):
         ):
             raise TypeError("can't compare offset-naive and offset-aware datetimes")
 
-        if absolute and start > end:
+        if absolute and _is_after(start, end):
             end, start = start, end
 
         _start = start
@@ -175,7 +197,7 @@ class Interval(Duration, Generic[_T]):
                 _end = cast(_T, date(end.year, end.month, end.day))
 
         self._invert = False
-        if start > end:
+        if _is_after(start, end):
             self._invert = True
 
             if absolute:
